@@ -3,6 +3,7 @@ package cdrive
 import (
 	"fmt"
 	"runtime/debug"
+	"strings"
 	"sync"
 
 	"verif/internal/ev"
@@ -118,9 +119,14 @@ func Walk(cfg WalkConfig, handle func(worker int, progs []*ProgInfo)) *WalkStats
 		}
 	}
 	for _, name := range cfg.Families {
-		fam := cfg.Extra[name]
+		// "family@tier" overrides the tier for one family (the statistics are kept under the full spec).
+		base, tier := name, cfg.Tier
+		if i := strings.IndexByte(name, '@'); i > 0 {
+			base, tier = name[:i], name[i+1:]
+		}
+		fam := cfg.Extra[base]
 		if fam == nil {
-			fam = progen.New(name, cfg.Tier)
+			fam = progen.New(base, tier)
 		}
 		if fam == nil {
 			ev.Fatal("unknown family %q", name)
